@@ -189,7 +189,7 @@ func (e Ev) String() string {
 	case EvPersist:
 		return fmt.Sprintf("P(%s=%d)", seqName(e.Seq), e.Val)
 	case EvTooLong:
-		return fmt.Sprintf("TL(%s)", seqName(e.Seq))
+		return fmt.Sprintf("TL(%s %d..%d]", seqName(e.Seq), e.ID, e.Val)
 	}
 	return fmt.Sprintf("API(%s from %d: %s)", seqName(e.Seq), e.Val, e.Info)
 }
@@ -201,19 +201,18 @@ type recorder struct {
 	curOp    int
 	activity int
 	// sentinels
-	mainSeen   int           // highest main sentinel number seen
-	mainLens   map[int]bool  // sentinel number -> all queues empty at that time
-	chanSeen   map[int]int   // seq -> number of sentinel callbacks
-	servedTL   map[int]int   // seq -> served too-long responses not yet matched by a callback
-	tlTarget   map[int]int   // seq -> highest pts a reported too-long skipped to
-	pendingTLv map[int][]int // seq -> targets of served too-long responses awaiting their callback
-	contScope  map[int]bool  // seq -> the previous response asked the client to continue (slice / too long / not final)
-	rootCalls  []Ev          // root API calls (not continuations), in order
+	mainSeen   int              // highest main sentinel number seen
+	mainLens   map[int]bool     // sentinel number -> all queues empty at that time
+	chanSeen   map[int]int      // seq -> number of sentinel callbacks
+	servedTL   map[int]int      // seq -> served too-long responses not yet matched by a callback
+	pendingTLv map[int][][2]int // seq -> (requested pts, skipped-to pts] of served too-long responses awaiting their callback
+	contScope  map[int]bool     // seq -> the previous response asked the client to continue (slice / too long / not final)
+	rootCalls  []Ev             // root API calls (not continuations), in order
 }
 
 func newRecorder() *recorder {
-	r := &recorder{mainLens: map[int]bool{}, chanSeen: map[int]int{}, servedTL: map[int]int{}, tlTarget: map[int]int{},
-		pendingTLv: map[int][]int{}, contScope: map[int]bool{}}
+	r := &recorder{mainLens: map[int]bool{}, chanSeen: map[int]int{}, servedTL: map[int]int{},
+		pendingTLv: map[int][][2]int{}, contScope: map[int]bool{}}
 	r.cond = sync.NewCond(&r.mu)
 	return r
 }
@@ -442,7 +441,7 @@ func (s *Server) UpdatesGetDifference(ctx context.Context, req *tg.UpdatesGetDif
 	if s.cfg.TooLongThr > 0 && vis[0]-req.Pts > s.cfg.TooLongThr {
 		s.rec.contScope[0] = true
 		s.rec.servedTL[0]++
-		s.rec.pendingTLv[0] = append(s.rec.pendingTLv[0], vis[0])
+		s.rec.pendingTLv[0] = append(s.rec.pendingTLv[0], [2]int{req.Pts, vis[0]})
 		return fin(fmt.Sprintf("tooLong pts=%d", vis[0]), &tg.UpdatesDifferenceTooLong{Pts: vis[0]})
 	}
 	// A slice is a prefix (in log = publication order) of the pending pts and qts entries; the
@@ -536,7 +535,7 @@ func (s *Server) UpdatesGetChannelDifference(ctx context.Context, req *tg.Update
 	}
 	if s.cfg.CTooLongThr > 0 && vis-req.Pts > s.cfg.CTooLongThr {
 		s.rec.servedTL[seq]++
-		s.rec.pendingTLv[seq] = append(s.rec.pendingTLv[seq], vis)
+		s.rec.pendingTLv[seq] = append(s.rec.pendingTLv[seq], [2]int{req.Pts, vis})
 		d := &tg.Dialog{Peer: &tg.PeerChannel{ChannelID: in.ChannelID}}
 		d.SetPts(vis)
 		return fin(fmt.Sprintf("tooLong pts=%d", vis), &tg.UpdatesChannelDifferenceTooLong{Final: true, Dialog: d})
@@ -660,19 +659,20 @@ func (r *Run) handle(ctx context.Context, u tg.UpdatesClass) error {
 func (r *Run) onTooLong() {
 	r.rec.mu.Lock()
 	defer r.rec.mu.Unlock()
-	r.matchTL(0)
-	r.rec.add(Ev{T: EvTooLong, Seq: 0})
+	r.rec.add(r.matchTL(0))
 }
 
-func (r *Run) matchTL(seq int) {
+// matchTL pairs a too-long callback with the too-long answer it reports: the event carries
+// the skipped range (ID = requested pts, Val = skipped-to pts].
+func (r *Run) matchTL(seq int) Ev {
+	ev := Ev{T: EvTooLong, Seq: seq}
 	if r.rec.servedTL[seq] > 0 {
 		r.rec.servedTL[seq]--
-		v := r.rec.pendingTLv[seq][0]
+		rg := r.rec.pendingTLv[seq][0]
 		r.rec.pendingTLv[seq] = r.rec.pendingTLv[seq][1:]
-		if v > r.rec.tlTarget[seq] {
-			r.rec.tlTarget[seq] = v
-		}
+		ev.ID, ev.Val = rg[0], rg[1]
 	}
+	return ev
 }
 
 func (r *Run) onChannelTooLong(id int64) {
@@ -680,8 +680,7 @@ func (r *Run) onChannelTooLong(id int64) {
 	r.rec.mu.Lock()
 	defer r.rec.mu.Unlock()
 	if r.rec.servedTL[seq] > 0 {
-		r.matchTL(seq)
-		r.rec.add(Ev{T: EvTooLong, Seq: seq})
+		r.rec.add(r.matchTL(seq))
 		return
 	}
 	r.rec.chanSeen[seq]++ // harness sentinel (updateChannelTooLong with a far-away pts)
@@ -979,7 +978,6 @@ type Result struct {
 	FinalVis     []int
 	Interference bool
 	Stuck        string
-	TLTarget     map[int]int
 }
 
 // RunHistory executes h on a fresh manager.
@@ -1019,12 +1017,6 @@ func runFrom(h History, initial []int, records []bool, ops []Op) Result {
 	}
 	res.Trace = r.Stop()
 	res.Executed, res.Interference, res.Stuck = r.Executed, r.Interference, r.Stuck
-	r.rec.mu.Lock()
-	res.TLTarget = map[int]int{}
-	for k, v := range r.rec.tlTarget {
-		res.TLTarget[k] = v
-	}
-	r.rec.mu.Unlock()
 	return res
 }
 
@@ -1091,8 +1083,8 @@ func CheckNoLoss(res Result, extra []Ev) []Finding {
 		if e.Pos <= res.H.Cfg.Base[e.Seq] || e.Pos > res.FinalVis[e.Seq] || got[e.ID] {
 			continue
 		}
-		if e.Pos <= res.TLTarget[e.Seq] {
-			continue // reported through the too-long callback
+		if tlCovers(all, e.Seq, e.Pos) {
+			continue // the gap containing it was reported through the too-long callback
 		}
 		where := "common"
 		if e.Seq >= 2 {
@@ -1145,6 +1137,74 @@ func CheckAtMostOnce(res Result) []Finding {
 	return out
 }
 
+// CheckInOrder is the manager-level C01 ordering oracle over every prefix of the real trace: when
+// an update of sequence s reaches the handler, every log entry of s above the base whose position
+// is <= its start has reached the handler before, or lies in a gap reported too long, or is covered
+// by the fetched difference in progress (it was served by the last difference answer of that scope,
+// whose state has not been stored yet).
+func CheckInOrder(res Result, initial []int) []Finding {
+	base := res.H.Cfg.Base
+	if initial != nil {
+		base = initial
+	}
+	var out []Finding
+	got := map[int]bool{}
+	inflight := map[int]map[int]bool{} // scope seq -> ids served by the answer being applied
+	scope := func(seq int) int {
+		if seq == 1 {
+			return 0
+		}
+		return seq
+	}
+	ids := func(info, key string) []int {
+		var r []int
+		if i := strings.Index(info, key); i >= 0 {
+			rest := info[i+len(key):]
+			rest = rest[:strings.Index(rest, "]")]
+			for _, x := range strings.Split(rest, ",") {
+				if v, err := strconv.Atoi(x); err == nil {
+					r = append(r, v)
+				}
+			}
+		}
+		return r
+	}
+	for i, e := range res.Trace {
+		switch e.T {
+		case EvAPI:
+			m := map[int]bool{}
+			for _, id := range append(ids(e.Info, "msgs=["), ids(e.Info, "others=[")...) {
+				m[id] = true
+			}
+			inflight[e.Seq] = m
+		case EvPersist:
+			delete(inflight, scope(e.Seq)) // the answer's state is being stored: it has been applied
+		case EvDeliver:
+			if e.Seq < 0 {
+				continue
+			}
+			var me Entry
+			for _, le := range res.H.Log {
+				if le.ID == e.ID {
+					me = le
+				}
+			}
+			for _, le := range res.H.Log {
+				if le.Seq != e.Seq || le.Pos <= base[le.Seq] || le.Pos > me.Start() || got[le.ID] ||
+					tlCovers(res.Trace[:i], le.Seq, le.Pos) || inflight[scope(e.Seq)][le.ID] {
+					continue
+				}
+				if len(out) < 3 {
+					out = append(out, Finding{"delivered-before-earlier-position", fmt.Sprintf("%s %v reached the handler although %v (an earlier position) had not, was not reported too long and is not part of the difference in progress (trace prefix: %s)",
+						seqName(e.Seq), me, le, TraceString(res.Trace[:i+1]))})
+				}
+			}
+			got[e.ID] = true
+		}
+	}
+	return out
+}
+
 // CheckPrefixSafe is the C03 oracle over EVERY prefix of the trace: whenever a position is
 // persisted, every log entry of that sequence above the initially persisted position and up
 // to the persisted one has already been handed to the handler, or the too-long callback
@@ -1157,8 +1217,7 @@ func CheckPrefixSafe(res Result, initial []int) ([]Finding, int) {
 	}
 	var out []Finding
 	got := map[int]bool{}
-	tl := map[int]int{}       // seq -> covered-by-too-long target, once the callback was seen
-	served := map[int][]int{} // seq -> targets served, callback not yet seen
+	served := map[int][]int{} // seq -> targets of too-long answers whose callback has not been seen yet
 	seen := map[string]bool{}
 	for i, e := range res.Trace {
 		switch e.T {
@@ -1171,14 +1230,11 @@ func CheckPrefixSafe(res Result, initial []int) ([]Finding, int) {
 			}
 		case EvTooLong:
 			if len(served[e.Seq]) > 0 {
-				if served[e.Seq][0] > tl[e.Seq] {
-					tl[e.Seq] = served[e.Seq][0]
-				}
 				served[e.Seq] = served[e.Seq][1:]
 			}
 		case EvPersist:
 			for _, le := range res.H.Log {
-				if le.Seq != e.Seq || le.Pos <= base[le.Seq] || le.Pos > e.Val || got[le.ID] || le.Pos <= tl[le.Seq] {
+				if le.Seq != e.Seq || le.Pos <= base[le.Seq] || le.Pos > e.Val || got[le.ID] || tlCovers(res.Trace[:i], le.Seq, le.Pos) {
 					continue
 				}
 				sig := "persist-ahead-of-delivery"
@@ -1269,34 +1325,42 @@ func Restart(res Result, persisted []int, records []bool) Result {
 
 // ---------- projection for the Coq correspondence ----------
 
-// Projection: per sequence the sorted multiset of delivered ids, the delivered plain ids,
-// the final persisted positions and the number of too-long callbacks per sequence.
-func Project(res Result, initial []int) (perSeq [][]int, plain []int, final []int, tl []int) {
-	n := res.H.Cfg.NSeq()
-	perSeq = make([][]int, n)
-	tl = make([]int, n)
-	base := res.H.Cfg.Base
-	if initial != nil {
-		base = initial
-	}
-	final = PersistedAt(base, res.Trace)
-	for _, e := range res.Trace {
-		switch e.T {
-		case EvDeliver:
-			if e.Seq < 0 {
-				plain = append(plain, e.ID)
-			} else {
-				perSeq[e.Seq] = append(perSeq[e.Seq], e.ID)
-			}
-		case EvTooLong:
-			tl[e.Seq]++
+// tlCovers: some too-long callback in tr reported a gap (from, to] of seq containing pos.
+func tlCovers(tr []Ev, seq, pos int) bool {
+	for _, e := range tr {
+		if e.T == EvTooLong && e.Seq == seq && e.ID < pos && pos <= e.Val {
+			return true
 		}
 	}
-	for i := range perSeq {
-		sort.Ints(perSeq[i])
+	return false
+}
+
+// Project: per sequence 0..n-1, then for plain updates (-1), the ORDERED string of its events:
+// Deliver id -> 0 id; Persist v -> 1 v; TooLong (from, to] -> 2 from to. Each sequence is owned
+// by one goroutine, so this order is deterministic.
+func Project(res Result) [][]int {
+	n := res.H.Cfg.NSeq()
+	out := make([][]int, n+1)
+	idx := func(seq int) int {
+		if seq < 0 {
+			return n
+		}
+		return seq
 	}
-	sort.Ints(plain)
-	return
+	for _, e := range res.Trace {
+		if e.T != EvAPI && e.Seq >= n {
+			continue
+		}
+		switch e.T {
+		case EvDeliver:
+			out[idx(e.Seq)] = append(out[idx(e.Seq)], 0, e.ID)
+		case EvPersist:
+			out[idx(e.Seq)] = append(out[idx(e.Seq)], 1, e.Val)
+		case EvTooLong:
+			out[idx(e.Seq)] = append(out[idx(e.Seq)], 2, e.ID, e.Val)
+		}
+	}
+	return out
 }
 
 // I63 prints numbers as Coq primitive-integer literals offset by 2^40.
@@ -1342,16 +1406,11 @@ func CoqCase(res Result, initial []int, records []bool) string {
 		in = append(in, o.CID, o.SeqNo, p, len(o.Items))
 		in = append(in, o.Items...)
 	}
-	perSeq, plain, final, tl := Project(res, initial)
 	var ob []int
-	for _, l := range perSeq {
+	for _, l := range Project(res) {
 		ob = append(ob, len(l))
 		ob = append(ob, l...)
 	}
-	ob = append(ob, len(plain))
-	ob = append(ob, plain...)
-	ob = append(ob, final...)
-	ob = append(ob, tl...)
 	return hx.Tuple(I63(in), I63(ob))
 }
 
